@@ -367,13 +367,13 @@ def _neg_coef_nonlinear(e):
 PROFILES = {
     #           numeric op weights                                                         logical op weights
     'mixed': ({'lin': 6, 'abs': 3, 'minmax': 3, 'mul': 3, 'monoprod': 1, 'sqr': 1, 'div': 1, 'if': 2, 'count': 1, 'numberof': 1, 'pl': 1},
-              {'cmp': 6, 'batom': 4, 'not': 2, 'andor': 4, 'iter': 1, 'implies': 3, 'iff': 2, 'cnt': 1, 'alldiff': 1}),
+              {'cmp': 6, 'batom': 4, 'not': 2, 'andor': 4, 'iter': 1, 'implies': 3, 'iff': 2, 'cnt': 1, 'alldiff': 1, 'member': 1}),
     'quad': ({'lin': 6, 'abs': 3, 'minmax': 2, 'mul': 5, 'monoprod': 5, 'sqr': 2, 'div': 1, 'if': 1, 'count': 0, 'numberof': 0, 'pl': 1},
-             {'cmp': 6, 'batom': 2, 'not': 1, 'andor': 2, 'iter': 0, 'implies': 1, 'iff': 1, 'cnt': 0, 'alldiff': 0}),
+             {'cmp': 6, 'batom': 2, 'not': 1, 'andor': 2, 'iter': 0, 'implies': 1, 'iff': 1, 'cnt': 0, 'alldiff': 0, 'member': 1}),
     'logic': ({'lin': 4, 'abs': 1, 'minmax': 1, 'mul': 0, 'sqr': 0, 'div': 0, 'if': 2, 'count': 1, 'numberof': 0, 'pl': 0},
-              {'cmp': 2, 'batom': 8, 'not': 2, 'andor': 6, 'iter': 1, 'implies': 6, 'iff': 4, 'cnt': 1, 'alldiff': 0}),
+              {'cmp': 2, 'batom': 8, 'not': 2, 'andor': 6, 'iter': 1, 'implies': 6, 'iff': 4, 'cnt': 1, 'alldiff': 0, 'member': 2}),
     'count': ({'lin': 4, 'abs': 1, 'minmax': 2, 'mul': 1, 'sqr': 0, 'div': 1, 'if': 2, 'count': 4, 'numberof': 4, 'pl': 0},
-              {'cmp': 5, 'batom': 3, 'not': 1, 'andor': 2, 'iter': 1, 'implies': 2, 'iff': 1, 'cnt': 5, 'alldiff': 3}),
+              {'cmp': 5, 'batom': 3, 'not': 1, 'andor': 2, 'iter': 1, 'implies': 2, 'iff': 1, 'cnt': 5, 'alldiff': 3, 'member': 3}),
     'pl': ({'lin': 5, 'abs': 2, 'minmax': 2, 'mul': 1, 'sqr': 0, 'div': 2, 'if': 2, 'count': 0, 'numberof': 0, 'pl': 6},
            {'cmp': 6, 'batom': 2, 'not': 1, 'andor': 2, 'iter': 0, 'implies': 1, 'iff': 1, 'cnt': 0, 'alldiff': 0}),
 }
@@ -801,6 +801,36 @@ class Gen:
         args = [self.log(d - 1) for _ in range(rng.rint(2, 3))]
         kind = rng.choice(CNT)
         return (kind, ('n', F(rng.rint(0, len(args)))), ('count', args))
+
+    def l_member(self, d):
+        """`x in {c1, c2, ...}`: equalities of ONE variable with neighbouring constants (consecutive points of the variable's grid, or an
+        arithmetic progression with step 1, 1/2 or 1/4), combined by or / exists / a counting constraint / negated"""
+        rng = self.rng
+        cands = [j for j in range(self.n) if len(self.grids[j]) >= 2]
+        if not cands:
+            return None
+        j = rng.choice(cands)
+        lo, hi, isint = self.var_info(j)
+        k = rng.rint(2, 3)
+        g = self.grids[j]
+        if rng.chance(3, 4):
+            i = rng.below(max(1, len(g) - k + 1))
+            cs = g[i:i + k]
+        else:
+            step = F(1) if (isint and rng.chance(3, 4)) else rng.choice([F(1, 2), F(1, 4)])
+            base = g[rng.below(len(g))]
+            cs = [base + step * i for i in range(k)]
+        if len(cs) < 2:
+            return None
+        atoms = [('eq', ('v', j), ('n', F(c))) for c in cs]
+        r = rng.below(5)
+        if r < 2:
+            return ('or', atoms[0], atoms[1]) if len(atoms) == 2 else ('exists', atoms)
+        if r == 2:
+            return (rng.choice(CNT), ('n', F(1)), ('count', atoms))
+        if r == 3:
+            return ('not', ('or', atoms[0], atoms[1]) if len(atoms) == 2 else ('exists', atoms))
+        return ('and', ('not', atoms[0]), atoms[1])
 
     def l_alldiff(self, d):
         rng = self.rng
